@@ -2,6 +2,8 @@ import Sio.Props.C05
 #print axioms Sio.C05.step_of_completesEvent
 #print axioms Sio.C05.invoke_once
 #print axioms Sio.C05.invoke_none_on_error
+#print axioms Sio.C05.invoke_queued
+#print axioms Sio.C05.settle_in_order
 #print axioms Sio.C05.not_connected
 #print axioms Sio.C05.ack_exact
 #print axioms Sio.C05.ack_to_sender_only
